@@ -188,6 +188,9 @@ type Interp struct {
 	varKinds  map[string]string
 	reached   map[string]bool
 	pathAsserts map[string]int
+	congUsed  int
+	noCong    bool
+	exactOf   map[int]*Term // strong (congruence) boolean -> exact twin
 	freeChoices int // schedule / map-order / sort-permutation choices on this path (not reproducible natively)
 	notes     []string
 	blockCtr  int
@@ -258,6 +261,8 @@ func (in *Interp) resetRun(prefix []int) {
 	in.varKinds = map[string]string{}
 	in.reached = map[string]bool{}
 	in.pathAsserts = map[string]int{}
+	in.exactOf = nil
+	in.noCong = false
 	in.freeChoices = 0
 	in.notes = nil
 	in.blockCtr = 0
